@@ -83,6 +83,23 @@ def run_iptw(chk, drv, df, covs, ytype, wcol, cf, dsid, rec):
                        'm0': float(np.exp(ipt.average_treatment_effect.loc['Intercept', 'ATE']))}
             got = {k: float(v) for k, v in got.items()}
             case['impl'] = got
+            # history: a second fit() of the same specification on the same object changes nothing, and fit() does not
+            # write into the exposed weights (state leaking between calls shows up here)
+            w_before = np.array(ipt.iptw, dtype=float, copy=True)
+            ipt.fit(continuous_distribution=dist)
+            if ytype == 'binary':
+                again = {'RD': ipt.risk_difference.loc['A', 'RD'], 'RR': ipt.risk_ratio.loc['A', 'RR'],
+                         'OR': ipt.odds_ratio.loc['A', 'OR'], 'm0': ipt.risk_difference.loc['Intercept', 'RD']}
+            elif ytype == 'normal':
+                again = {'ATE': ipt.average_treatment_effect.loc['A', 'ATE'],
+                         'm0': ipt.average_treatment_effect.loc['Intercept', 'ATE']}
+            else:
+                again = {'ratio': float(np.exp(ipt.average_treatment_effect.loc['A', 'ATE'])),
+                         'm0': float(np.exp(ipt.average_treatment_effect.loc['Intercept', 'ATE']))}
+            chk.d(all(close(float(again[k]), got[k], rtol=1e-10, atol=1e-12) for k in got),
+                  'IPTW: a second fit() on the same object reproduces the first', dict(case, second=str(again)))
+            chk.d(np.allclose(np.asarray(ipt.iptw, dtype=float), w_before, rtol=0, atol=0, equal_nan=True),
+                  'IPTW.fit leaves the exposed weights IPTW.iptw untouched', case)
             want = measures(cf[(tgt, 1)], cf[(tgt, 0)], ytype)
             want['m0'] = float(cf[(tgt, 0)])
             # with missing outcomes and a frequency-weight column the missingness model of IPTW is fitted unweighted
@@ -126,6 +143,13 @@ def run_gformula(chk, drv, df, covs, ytype, wcol, cf, dsid, rec):
         g.fit('none')
         r0 = float(g.marginal_outcome)
         q0 = np.asarray(g.predicted_df['Y'], dtype=float)
+        # history: a stochastic fit in between must not leak into a later deterministic fit
+        if ytype == 'binary':
+            g.fit_stochastic(p=0.5, samples=3, seed=7)
+            g.fit('all')
+            chk.d(close(float(g.marginal_outcome), r1, rtol=1e-12, atol=1e-14),
+                  "g-formula: fit('all') after fit_stochastic() on the same object reproduces the first fit('all') (%s)" % tgt,
+                  dict(case, first=r1, after=float(g.marginal_outcome)))
         case['impl'] = [r1, r0]
         chk.d(close(r1, float(cf[(tgt, 1)]), **TOL) and close(r0, float(cf[(tgt, 0)]), **TOL),
               "g-formula fit('all')/fit('none') = closed-form standardization (%s)" % tgt,
@@ -169,6 +193,11 @@ def run_aiptw(chk, drv, df, covs, ytype, wcol, cf, dsid, rec):
     else:
         got = {'ATE': float(a.average_treatment_effect)}
     case['impl'] = got
+    a.fit()
+    again = ({'RD': float(a.risk_difference), 'RR': float(a.risk_ratio)} if ytype == 'binary'
+             else {'ATE': float(a.average_treatment_effect)})
+    chk.d(all(close(again[k], got[k], rtol=1e-12, atol=1e-14) for k in got),
+          'AIPTW: a second fit() on the same object reproduces the first', dict(case, second=again))
     for k, v in got.items():
         chk.d(close(v, want[k], **TOL), 'AIPTW %s = closed-form standardization' % k, dict(case, want=want))
     if drv is not None:
